@@ -100,14 +100,15 @@ Proof. vm_compute. reflexivity. Qed.
 Lemma F25_callable_current : overlap_violation current_cfg reg_F25fn 3 4 (VFun 6) = true.
 Proof. vm_compute. reflexivity. Qed.
 Definition v_F25p : value := VTup (Some 0) [(Some 0, VInt 0%Z)].
-Lemma F25_partial_current : overlap_violation current_cfg reg_F25partial 1 2 v_F25p = true.
+Lemma F25p_as_found : overlap_violation fixed_cfg reg_F25partial 1 2 v_F25p = true.
 Proof. vm_compute. reflexivity. Qed.
-Lemma F25_partial_proposed_repair : types_overlap_with partial_cfg 1000 reg_F25partial 1 2 = Some true.
-Proof. vm_compute. reflexivity. Qed.
+Lemma F25p_repaired : types_overlap_with current_cfg 1000 reg_F25partial 1 2 = Some true
+                      /\ types_overlap_with current_cfg 1000 reg_F25partial 2 1 = Some true.
+Proof. vm_compute. split; reflexivity. Qed.
 
-(* unnamed partial accepted where a named partial is expected: (x:int) vs N0(x:int); value N1[x: 1] *)
+(* F29: unnamed partial accepted where a named partial is expected: (x:int) vs N0(x:int); value N1[x: 1] *)
 Definition v_Pname : value := VTup (Some 1) [(Some 0, VInt 0%Z)].
-Lemma partial_name_current : compat_violation current_cfg reg_Pname 1 2 v_Pname = true.
+Lemma F29_as_found : compat_violation fixed_cfg reg_Pname 1 2 v_Pname = true.
 Proof. vm_compute. reflexivity. Qed.
-Lemma partial_name_proposed_repair : is_compatible_with partial_cfg 1000 reg_Pname 1 2 = Some false.
+Lemma F29_repaired : is_compatible_with current_cfg 1000 reg_Pname 1 2 = Some false.
 Proof. vm_compute. reflexivity. Qed.
